@@ -214,6 +214,9 @@ func (cc *checkCtx) run() int {
 	// verify functions in parallel
 	findings := loadFindings()
 	noRetry := func(name string) bool {
+		if strings.Contains(name, "lemmaCanary") {
+			return true // canaries are expected not to be provable: one attempt is enough
+		}
 		for i := range findings {
 			if findings[i].matches(cc.id, name) {
 				return true
@@ -280,6 +283,18 @@ func (cc *checkCtx) report() int {
 		}
 	}
 	all = append(all, cc.extra...)
+	// vacuity canaries: postconditions of functions named lemmaCanary* are false statements over the same
+	// specification; proving one means the specification or the engine is inconsistent
+	for _, o := range all {
+		if strings.Contains(o.Fn, "lemmaCanary") && o.Kind == "ensures" {
+			if o.Status == "discharged" || o.Status == "trivial" {
+				o.Status, o.Raw = "failed", "canary proved: a deliberately false statement was discharged - specification or engine inconsistent"
+			} else {
+				o.Status, o.Solver = "discharged", "canary(not provable, as required)"
+			}
+			o.Desc = "vacuity canary is NOT provable: " + o.Desc
+		}
+	}
 	sort.SliceStable(all, func(i, j int) bool { return all[i].Name < all[j].Name })
 	total, discharged, trivial, quant := 0, 0, 0, 0
 	bySolver := map[string]int{}
